@@ -1,7 +1,7 @@
 """Configuration of ./check C13 (see pylib/props.py)."""
 CFG = dict(
         coq=["props/C13.vo"],
-        tie=["gen/Tie_C13.vo"],
+        tie=["gen/Tie_C13.vo", "gen/Tie_Code_ChildrenFirst.vo"],
         model_vo=["model/CrashRepo.vo", "model/Crash.vo", "gen/Extracted.vo"],
         extract="Ex_C13",
         level_text="PARTIAL. Theorems over ALL states, inputs, worker interleavings and crash points about the write-list model "
